@@ -328,8 +328,8 @@ def shard(ctx, acc):
     muts = mutators_listed(dd)
     if ctx.shard == 0:
         check_fp_short(dd, acc)
-    total = 2500 if ctx.quick else 60000
-    z3_budget = [0 if ctx.quick else 400]
+    total = 2500 if ctx.quick else 300000
+    z3_budget = [0 if ctx.quick else 1500]
 
     def body(arg):
         s, = arg
